@@ -214,9 +214,11 @@ class SolverWrapper:
                         self.solver.changeColsLower(len(idxs), idxs, lbs)
                     else:
                         # As a conservative fallback, raise LB via changeColsBounds using current UBs fetched via getCols
-                        status, nret, costs, lowers, uppers, nnz = self.solver.getCols(len(idxs), idxs)
-                        # Use returned uppers in the same order as idxs
-                        current_ubs = uppers.astype(np.float64, copy=False)
+                        # getCols only accepts an ascending index set: query in sorted order, map back to request order
+                        order = np.argsort(idxs, kind="stable")
+                        status, nret, costs, lowers, uppers, nnz = self.solver.getCols(len(idxs), idxs[order])
+                        current_ubs = np.empty(len(idxs), dtype=np.float64)
+                        current_ubs[order] = uppers
                         self.solver.changeColsBounds(len(idxs), idxs, lbs, current_ubs)
 
         finally:
